@@ -11,6 +11,11 @@ The '*-hashcollide' blocks use int keys that DIFFER but have EQUAL Python hashes
 0 / 2**61-1), alone and as components of composite keys: only key equality makes a pair (an
 implementation that buckets by hash value returns extra rows there; failure class suffix
 ':hash-colliding-keys').
+The '*-twin' blocks (relational_common.twin_join_cases) give the keys BY NAME on tables where a column
+whose name only SANITISES to the requested name stands BEFORE the column that carries exactly that name
+(['Region ID', 'region_id'] with left_on='region_id'; ['A', 'a'] with 'a'; one to three keys; the twin on
+the left, the right or both sides; its values are other keys): rows must be paired on the exactly named
+column (class suffix ':key-named-like-an-earlier-sanitised-twin').
 """
 from relational_common import *  # noqa
 
@@ -18,7 +23,7 @@ PID = 'C09'
 
 
 def cases(tier, seed):
-    for case in join_cases(tier, heavy=False):
+    for case in itertools.chain(join_cases(tier, heavy=False), twin_join_cases(tier, heavy=False)):
         case['op'] = 'inner_join'
         yield case
 
